@@ -201,7 +201,10 @@ func (d *Director) Peer(a *Actor, asked int, kind string, legacyClient bool) ([]
 	if err == nil && len(hosts) == 0 && exp.cap > 0 {
 		d.bad("C08", "count", "empty reply without an error", "%s", op)
 	}
-	if exp.allPerfect && exp.cap > 0 && len(exp.maybe) == 0 {
+	// ("acknowledges" is a statement about the run, not about the host's policy alone: when the request was in the pool for
+	// as long as the pool waits for hosts - simulated time can pass in there, a leftover slow handler of an earlier
+	// request sleeping is enough - a willing host may not have been heard in time, and is then rightly left out)
+	if exp.allPerfect && exp.cap > 0 && len(exp.maybe) == 0 && t1.Sub(t0) < 5*time.Second {
 		want := exp.cap
 		if exp.supply < want {
 			want = exp.supply
